@@ -3,10 +3,14 @@
 BASIC = ["bool", "int", "int8", "int16", "int32", "int64", "uint", "uint8", "uint16", "uint32", "uint64", "uintptr",
          "float32", "float64", "string", "any"]
 BANK_PLAIN = ["Inner", "Deep", "EmbedVal", "EmbedPtr", "Shadow", "EmbedUnexported", "Named", "Twice", "DescTag", "MyString", "MyInt",
-              "MyFloat", "MyInts", "time.Time", "slog.Level", "MyInt8", "MyUint16", "MyUint", "MyInt64", "MyBool", "Levels", "Empty", "Markers", "IDt", "BaseT", "DocT", "DocP", "TwoEmb", "PtrInt", "PtrInner", "HoldsPtrs"]
+              "MyFloat", "MyInts", "time.Time", "slog.Level", "MyInt8", "MyUint16", "MyUint", "MyInt64", "MyBool", "Levels", "Empty", "Markers", "IDt", "BaseT", "DocT", "DocP", "TwoEmb", "PtrInt", "PtrInner", "HoldsPtrs", "Vec3", "Grid"]
 BANK_KNOWN = {"ShadowByTag": "D14", "Ambiguous": "D14", "EmbedTagged": "D16", "EmbedNonStruct": "D16", "BadTag": "D15",
               "WithMarshalers": "D13", "big.Int": "D13"}
-BANK_REC = ["Rec", "RecA", "PtrSelf", "PtrA", "PtrIntoSelf", "PtrTail1", "PtrC1", "HoldsRho"]
+# recursive declared types: structs, defined pointer types, and defined ARRAY types whose cycle passes through named array types only
+# (`type Quad [4]*Quad`, `type Trie [2][]Trie`, `type ArrMap [1]map[string]ArrMap`, mutual `ArrA [2]*ArrB` / `ArrB [3]*ArrA`), plus
+# a struct and a defined slice that merely contain one: For/ForType must return an error for every one of them
+BANK_REC = ["Rec", "RecA", "PtrSelf", "PtrA", "PtrIntoSelf", "PtrTail1", "PtrC1", "HoldsRho",
+            "Quad", "Trie", "ArrMap", "ArrA", "HoldsQuad", "QuadList"]
 BANK_BAD = ["Handler", "IntKeyed", "MyChan", "TwoHandlers", "Handler"]
 GEN = {"names": [], "redeclared": set(), "embedding": set(), "embeds": {}}
 
